@@ -54,6 +54,7 @@ func cmdRun(args []string) {
 	verbose := fs.Bool("v", false, "print every path")
 	intFirst := fs.Bool("intfirst", false, "decide queries on the integer translation first")
 	tmo := fs.Int("timeout", 0, "BV solver timeout ms")
+	intAssert := fs.Bool("intassert", false, "decide assertion queries on the integer translation first")
 	fs.Parse(args)
 	start := time.Now()
 	prog, err := loadRepo()
@@ -63,7 +64,7 @@ func cmdRun(args []string) {
 	}
 	fmt.Fprintf(os.Stderr, "loaded in %v\n", time.Since(start))
 	job := Job{Pkg: *pkg, Func: *fn, Params: parseParams(*params), Solver: *solver, Workers: *workers,
-		MaxPaths: *maxPaths, LoopCap: *loopCap, NoFast: *nofast, CrossCheck: *cross, Verbose: *verbose, IntFirst: *intFirst, TimeoutMs: *tmo}
+		MaxPaths: *maxPaths, LoopCap: *loopCap, NoFast: *nofast, CrossCheck: *cross, Verbose: *verbose, IntFirst: *intFirst, IntAssert: *intAssert, TimeoutMs: *tmo}
 	res, err := runJob(prog, job)
 	if err != nil {
 		fmt.Fprintln(os.Stderr, err)
